@@ -154,7 +154,9 @@ class SetInitStateDurations(Contract):
         cond = validity(S, ts, wp, start_e, bc, ts.size())
         S.ensures(S.is_valid_.eq(S.result), 'flag_equals_verdict')
         S.ensures(msg.empty().eq(S.result), 'message_available_exactly_when_rejected')
-        S.ensures(S.layout_dirty_, 'layout_marked_dirty')
+        OFF = layout_defs_after(S)
+        for label, q in layout_ok(S, OFF):
+            S.ensures(under(mk_not(S.layout_dirty_), q), 'kept_cache_matches_new_configuration_' + label)
         S.ensures(S.num_segments_.eq(ts.size()) & S.start_time_.eq(start_e), 'inputs_stored')
         if variant == 'sound':
             for label, p in cond:
@@ -193,3 +195,187 @@ class IsValid(Contract):
     def spec(self, S):
         S.assigns()
         S.ensures(S.result.eq(S.is_valid_), 'returns_flag')
+
+
+# ------------------------------------------------------------------------------------------------ C09: decision-vector layout
+from translate_call import AbstractObj
+from values import ExprMat
+
+
+class AbstractSpatialMap(AbstractObj):
+    """a user spatial map known only through its protocol: getUnconstrainedDim(i) = DOF[i] (a fixed non-negative function)"""
+    identity_tag = 7
+
+    def call(self, tr, name, args, n):
+        if name == 'getUnconstrainedDim':
+            tr.globals_a['SPEC_DOF'] = INT
+            return E.idx('SPEC_DOF', tr.scalar(args[0]), INT)
+        raise ValueError('abstract spatial map: no rule for %s' % name)
+
+
+def DOF(i):
+    return E.idx('SPEC_DOF', i, INT)
+
+
+def flags(S):
+    f = S.v('flags_')
+    return dict((k, f.fields[k].rd()) for k in f.fields)
+
+
+def first_idx(S):
+    return ite(flags(S)['start_p'], 0, 1)
+
+
+def n_entries(S):
+    """number of optimised waypoints: the inner ones always, first/last only when flagged"""
+    n = S.num_segments_
+    fl = flags(S)
+    return (n - 1) + ite(fl['start_p'], 1, 0) + ite(fl['end_p'], 1, 0)
+
+
+def n_blocks(S):
+    fl = flags(S)
+    o = order_of(S)
+    b = ite(fl['start_v'], 1, 0) + ite(fl['end_v'], 1, 0)
+    if o >= 5:
+        b = b + ite(fl['start_a'], 1, 0) + ite(fl['end_a'], 1, 0)
+    if o >= 7:
+        b = b + ite(fl['start_j'], 1, 0) + ite(fl['end_j'], 1, 0)
+    return b
+
+
+def layout_ok(S, OFF):
+    """the layout cache describes exactly the stated decision-vector layout"""
+    n = S.num_segments_
+    D = S.cfg['DIM']
+    lay = S.v('spatial_layout_')
+    cnt = n_entries(S)
+    out = []
+    out.append(('empty_problem', implies(n <= 0, lay.size().eq(0) & S.derivatives_offset_.eq(0) & S.total_dimension_.eq(0))))
+    out.append(('one_entry_per_optimised_point', implies(n > 0, lay.size().eq(cnt))))
+    out.append(('entries', S.forall(0, lay.size(), lambda k: implies(n > 0, conj([
+        lay.elem(k).field('point_index').rd().eq(k + first_idx(S)),
+        lay.elem(k).field('dof').rd().eq(DOF(k + first_idx(S))),
+        lay.elem(k).field('offset').rd().eq(OFF(k))])))))
+    out.append(('derivative_blocks_follow_spatial_variables', implies(n > 0, S.derivatives_offset_.eq(OFF(cnt)))))
+    out.append(('dimension', implies(n > 0, S.total_dimension_.eq(S.derivatives_offset_ + n_blocks(S) * D))))
+    return out
+
+
+def layout_defs(S):
+    """OFF[k] = n + sum of the unconstrained dimensions of the first k optimised points"""
+    n = S.num_segments_
+    S.gen.globals_a['SPEC_DOF'] = INT
+    S.requires((n <= NMAX) & (n >= -NMAX), 'size_sane')
+    S.requires(S.forall(0, NMAX + 2, lambda i: (DOF(i) >= 0) & (DOF(i) <= 64)), 'unconstrained_dimensions_sane')
+    acc, full = S.spec_array('OFF', INT, shared=True)
+    facts = [acc(0).eq(n), S.forall(0, NMAX + 2, lambda k: acc(k + 1).eq(acc(k) + DOF(k + first_idx(S))))]
+    S.definitions.append((full, facts))
+    for j, f in enumerate(facts):
+        (S.ensures if S.mode == 'call' else S.requires)(f, 'def_OFF_%d' % j)
+    (S.ensures if S.mode == 'call' else S.requires)(S.forall(0, NMAX + 2, lambda k: (acc(k) >= n) & (acc(k) <= n + 64 * k)), 'offsets_bounded')
+    return acc
+
+
+def layout_defs_after(S):
+    """OFF for the configuration *after* a setter: an arbitrary array satisfying the recurrence over the post-state (the
+    postcondition is stated for every such array, i.e. for the one the next rebuild would compute)"""
+    S.gen.globals_a['SPEC_DOF'] = INT
+    acc, full = S.spec_array('OFFNEW', INT)
+    return acc
+
+
+LAYOUT_STATE = ('spatial_layout_', 'derivatives_offset_', 'total_dimension_', 'layout_dirty_')
+
+
+@register
+class RebuildLayoutCache(Contract):
+    key = 'SplineOptimizer.rebuildLayoutCache'
+
+    def spec(self, S):
+        OFF = layout_defs(S)
+        n = S.num_segments_
+        lay = S.v('spatial_layout_')
+        fl = flags(S)
+        S.assigns(*[S.v(x) for x in LAYOUT_STATE])
+        S.ensures(mk_not(S.layout_dirty_), 'clean')
+        for label, p in layout_ok(S, OFF):
+            S.ensures(p, label)
+        S.terms(0, n, n - 1)
+        seen = lambda i: i - ite(mk_not(fl['start_p']) & (i > 0), 1, 0) - ite(mk_not(fl['end_p']) & (i > n), 1, 0)
+        S.loop(0, inv=lambda L: [
+            ('range', (L.i >= 0) & (L.i <= n + 1)),
+            ('count', lay.size().eq(seen(L.i))),
+            ('offset', L.offset.eq(OFF(lay.size()))),
+            ('entries', S.forall(0, lay.size(), lambda k: conj([
+                lay.elem(k).field('point_index').rd().eq(k + first_idx(S)),
+                lay.elem(k).field('dof').rd().eq(DOF(k + first_idx(S))),
+                lay.elem(k).field('offset').rd().eq(OFF(k))]))),
+        ], variant=lambda L: n + 1 - L.i, terms=lambda L: [L.i, lay.size(), lay.size() - 1, lay.size() + 1])
+
+
+@register
+class EnsureLayoutCache(Contract):
+    key = 'SplineOptimizer.ensureLayoutCache'
+
+    def spec(self, S):
+        OFF = layout_defs(S)
+        for label, p in layout_ok(S, OFF):
+            S.requires(under(mk_not(S.layout_dirty_), p), 'layout_invariant_' + label)
+        S.assigns(*[S.v(x) for x in LAYOUT_STATE])
+        S.ensures(mk_not(S.layout_dirty_), 'clean')
+        for label, p in layout_ok(S, OFF):
+            S.ensures(p, label)
+
+
+@register
+class GetDimension(Contract):
+    key = 'SplineOptimizer.getDimension'
+
+    def spec(self, S):
+        OFF = layout_defs(S)
+        n = S.num_segments_
+        D = S.cfg['DIM']
+        for label, p in layout_ok(S, OFF):
+            S.requires(under(mk_not(S.layout_dirty_), p), 'layout_invariant_' + label)
+        S.assigns(*[S.v(x) for x in LAYOUT_STATE])
+        S.ensures(implies(n > 0, S.result.eq(OFF(n_entries(S)) + n_blocks(S) * D)), 'dimension_is_times_plus_spatial_plus_derivative_blocks')
+        S.ensures(implies(n <= 0, S.result.eq(0)), 'empty_problem')
+        for label, p in layout_ok(S, OFF):
+            S.ensures(p, 'cache_' + label)
+        S.ensures(mk_not(S.layout_dirty_), 'clean')
+
+
+@register
+class SetOptimizationFlags(Contract):
+    key = 'SplineOptimizer.setOptimizationFlags'
+
+    def spec(self, S):
+        f = S.v('flags_')
+        p = S.v('flags')
+        OFF = layout_defs_after(S)
+        # the cache described the old configuration (layout invariant); offsets of the old and the new configuration coincide
+        # when the first optimised point is the same (both satisfy one recurrence from the same base)
+        OFFOLD, _ = S.spec_array('OFFOLD', INT)
+        if S.mode == 'verify':
+            S.requires((S.num_segments_ <= NMAX) & (S.num_segments_ >= -NMAX), 'size_sane')
+            for label, q in layout_ok(S, OFFOLD):
+                S.requires(under(mk_not(S.layout_dirty_), q), 'layout_invariant_' + label)
+            S.requires(S.forall(0, NMAX + 2, lambda k: implies(f.fields['start_p'].rd().eq(p.fields['start_p'].rd()), OFFOLD(k).eq(OFF(k)))), 'same_first_point_same_offsets')
+        S.assigns(f, S.v('layout_dirty_'))
+        S.ensures(conj([f.fields[k].rd().eq(p.fields[k].rd()) for k in f.fields]), 'flags_stored')
+        # the lazily rebuilt cache may only be kept if it still describes the layout of the new configuration
+        for label, q in layout_ok(S, OFF):
+            S.ensures(under(mk_not(S.layout_dirty_), q), 'kept_cache_matches_new_configuration_' + label)
+
+
+@register
+class SetSpatialMap(Contract):
+    key = 'SplineOptimizer.setSpatialMap'
+
+    def spec(self, S):
+        OFF = layout_defs_after(S)
+        S.assigns(S.v('active_spatial_map_'), S.v('layout_dirty_'))
+        for label, q in layout_ok(S, OFF):
+            S.ensures(under(mk_not(S.layout_dirty_), q), 'kept_cache_matches_new_configuration_' + label)
+        S.ensures(mk_not(S.v('active_spatial_map_').null()), 'never_null')
